@@ -52,8 +52,17 @@ type RunSpec struct {
 	CancelMode  string   `json:"cancelmode"` // none | before | atenq | timer | deadline
 	CancelArg   int      `json:"cancelarg"`  // job index for atenq, microseconds for timer
 	WaitUs      int      `json:"waitus"`     // delay before calling Wait
-	PerturbP    float64  `json:"perturbp"`
-	PerturbMax  int      `json:"perturbmax"`
+	// JCtx, if non-empty, gives per job the context it is enqueued with: 1 = the context also
+	// given to Wait, 2 = a second context that is cancelled independently (Cancel2Mode).
+	JCtx        []int  `json:"jctx"`
+	Cancel2Mode string `json:"cancel2mode"` // none | before | atenq | timer
+	Cancel2Arg  int    `json:"cancel2arg"`
+	// Barrier > 0: the last Barrier jobs form a capacity probe: they are enqueued once all
+	// earlier jobs have finished and each blocks until all of them are in flight at once
+	// (or a timeout): with N workers, N runnable jobs must run concurrently (C03).
+	Barrier    int     `json:"barrier"`
+	PerturbP   float64 `json:"perturbp"`
+	PerturbMax int     `json:"perturbmax"`
 	// Script, if non-empty, replaces the random pacing: the run is steered
 	// step by step (see replay.go).
 	Script []Step `json:"script,omitempty"`
@@ -156,13 +165,43 @@ func genRun(rng *rand.Rand, k int, maxJ, maxN int) RunSpec {
 	}
 	rs.PerturbP = []float64{0, 0.1, 0.3, 0.6}[rng.Intn(4)]
 	rs.PerturbMax = []int{0, 30, 80}[rng.Intn(3)]
+	rs.Cancel2Mode = "none"
+	if rng.Intn(4) == 0 && rs.J > 0 {
+		// a second context for some of the jobs
+		p2 := []float64{0.2, 0.5, 0.8}[rng.Intn(3)]
+		for j := 1; j <= rs.J; j++ {
+			c := 1
+			if rng.Float64() < p2 {
+				c = 2
+			}
+			rs.JCtx = append(rs.JCtx, c)
+		}
+		switch x := rng.Intn(10); {
+		case x < 2:
+			rs.Cancel2Mode = "none"
+		case x < 4:
+			rs.Cancel2Mode = "before"
+		case x < 7:
+			rs.Cancel2Mode, rs.Cancel2Arg = "atenq", 1+rng.Intn(rs.J)
+		default:
+			rs.Cancel2Mode, rs.Cancel2Arg = "timer", rng.Intn(400)
+		}
+	}
 	return rs
+}
+
+// jctx returns the context number of job j.
+func (rs *RunSpec) jctx(j int) int {
+	if j-1 < len(rs.JCtx) && rs.JCtx[j-1] == 2 {
+		return 2
+	}
+	return 1
 }
 
 // genFanin: jobs 1..J-2 independent, job J-1 depends on all of them, job J on J-1.
 func genFanin(rng *rand.Rand, k, maxJ, maxN int) RunSpec {
 	J := 200 + rng.Intn(maxJ-199)
-	rs := RunSpec{Run: k, Seed: rng.Int63(), J: J, N: 1 + rng.Intn(maxN), Coe: rng.Intn(2) == 0, CancelMode: "none"}
+	rs := RunSpec{Run: k, Seed: rng.Int63(), J: J, N: 1 + rng.Intn(maxN), Coe: rng.Intn(2) == 0, CancelMode: "none", Cancel2Mode: "none"}
 	failing := 0
 	if rng.Intn(2) == 0 {
 		failing = 1 + rng.Intn(J-2)
@@ -189,6 +228,36 @@ func genFanin(rng *rand.Rand, k, maxJ, maxN int) RunSpec {
 	return rs
 }
 
+// genCapacity: a prelude of jobs that kill their worker goroutine (some after cancelling the
+// context they were enqueued with, some with a live one), then N jobs that must all be in flight
+// at once.  ContinueOnError, so that the scheduler keeps going after the Goexits.
+func genCapacity(rng *rand.Rand, k int) RunSpec {
+	n := 1 + rng.Intn(4)
+	pre := rng.Intn(2*n + 2)
+	J := pre + n
+	rs := RunSpec{Run: k, Seed: rng.Int63(), J: J, N: n, Coe: true, CancelMode: "none", Cancel2Mode: "none", Barrier: n}
+	for j := 1; j <= J; j++ {
+		rs.Deps = append(rs.Deps, []int{})
+		o, c := "ok", 1
+		if j <= pre {
+			switch rng.Intn(4) {
+			case 0:
+				o = "goexit"
+			case 1:
+				o, c = "c2exit", 2
+			case 2:
+				o, c = "goexit", 2
+			}
+		}
+		rs.Out = append(rs.Out, o)
+		rs.JCtx = append(rs.JCtx, c)
+		rs.Cls = append(rs.Cls, j)
+		rs.BodyUs = append(rs.BodyUs, rng.Intn(30))
+		rs.EnqUs = append(rs.EnqUs, 0)
+	}
+	return rs
+}
+
 // genPileup steers towards the states in which results pile up unread in donec while the caller
 // keeps enqueueing dependency-free jobs: fail-fast, 2-4 workers, instant bodies, one early failure,
 // and an Emitter callback (it runs on the loop goroutine) that keeps the loop away from its select
@@ -198,7 +267,7 @@ func genFanin(rng *rand.Rand, k, maxJ, maxN int) RunSpec {
 func genPileup(rng *rand.Rand, k int) RunSpec {
 	n := 2 + rng.Intn(3)
 	J := n + 3 + rng.Intn(8)
-	rs := RunSpec{Run: k, Seed: rng.Int63(), J: J, N: n, Coe: false, CancelMode: "none", Emit: true,
+	rs := RunSpec{Run: k, Seed: rng.Int63(), J: J, N: n, Coe: false, CancelMode: "none", Cancel2Mode: "none", Emit: true,
 		EmitSleepUs: 100 + rng.Intn(400), PerturbP: []float64{0, 0.3}[rng.Intn(2)], PerturbMax: 40}
 	failing := 1 + rng.Intn(n)
 	for j := 1; j <= J; j++ {
@@ -240,7 +309,15 @@ type exec struct {
 	cmu     sync.Mutex
 	cdone   bool
 	cbegun  bool
+	ctx2    context.Context
+	cancel2 context.CancelFunc
+	c2done  bool
+	c2begun bool
 	inBody  int32
+	inBar   int32         // barrier jobs in flight
+	maxBar  int32         // most barrier jobs ever in flight together
+	barFull chan struct{} // closed when all barrier jobs are in flight
+	barOnce sync.Once
 	nostamp bool
 	col     *vt.Collector
 	gate    func(j int) // scripted runs: blocks the body of job j until released
@@ -263,6 +340,24 @@ func (x *exec) doCancel() {
 	x.cmu.Unlock()
 	if first && !x.nostamp && atomic.LoadInt32(&x.over) == 0 {
 		x.log.Add(vt.APIEvent{Ev: "cancel", Run: x.rs.Run})
+	}
+}
+
+// doCancel2 does the same for the second context.
+func (x *exec) doCancel2() {
+	x.cmu.Lock()
+	if !x.c2begun && !x.nostamp && atomic.LoadInt32(&x.over) == 0 {
+		x.log.Add(vt.APIEvent{Ev: "cancel2_begin", Run: x.rs.Run})
+	}
+	x.c2begun = true
+	x.cmu.Unlock()
+	x.cancel2()
+	x.cmu.Lock()
+	first := !x.c2done
+	x.c2done = true
+	x.cmu.Unlock()
+	if first && !x.nostamp && atomic.LoadInt32(&x.over) == 0 {
+		x.log.Add(vt.APIEvent{Ev: "cancel2", Run: x.rs.Run})
 	}
 }
 
@@ -316,6 +411,14 @@ func (x *exec) tok(e error) vt.Tok {
 	return vt.Tok{K: "?"}
 }
 
+// ctxOf returns the context job j is enqueued with.
+func (x *exec) ctxOf(ctx context.Context, j int) context.Context {
+	if x.rs.jctx(j) == 2 {
+		return x.ctx2
+	}
+	return ctx
+}
+
 func sleepUs(us int) {
 	switch {
 	case us < 0:
@@ -332,7 +435,11 @@ func (x *exec) body(j int) func(context.Context) error {
 		defer atomic.AddInt32(&x.inBody, -1)
 		if !x.nostamp {
 			note := ""
-			if ctx.Value(ctxKey{}) != "marker" {
+			want := "marker"
+			if rs.jctx(j) == 2 {
+				want = "marker2"
+			}
+			if ctx.Value(ctxKey{}) != want {
 				note = "wrongctx"
 			}
 			x.log.Add(vt.APIEvent{Ev: "start", Run: rs.Run, Job: j, G: vt.GoID(), Note: note})
@@ -345,14 +452,34 @@ func (x *exec) body(j int) func(context.Context) error {
 		if o == "cancel" {
 			x.doCancel()
 		}
-		out := map[string]string{"ok": "ok", "cancel": "ok", "err": "err", "goexit": "exit"}[o]
+		if o == "c2exit" {
+			x.doCancel2()
+		}
+		if rs.Barrier > 0 && j > rs.J-rs.Barrier {
+			n := atomic.AddInt32(&x.inBar, 1)
+			for {
+				m := atomic.LoadInt32(&x.maxBar)
+				if n <= m || atomic.CompareAndSwapInt32(&x.maxBar, m, n) {
+					break
+				}
+			}
+			if int(n) == rs.Barrier {
+				x.barOnce.Do(func() { close(x.barFull) })
+			}
+			select {
+			case <-x.barFull:
+			case <-time.After(1500 * time.Millisecond):
+			}
+			atomic.AddInt32(&x.inBar, -1)
+		}
+		out := map[string]string{"ok": "ok", "cancel": "ok", "err": "err", "goexit": "exit", "c2exit": "exit"}[o]
 		if !x.nostamp {
 			x.log.Add(vt.APIEvent{Ev: "end", Run: rs.Run, Job: j, Out: out})
 		}
 		switch o {
 		case "err":
 			return x.errs[rs.Cls[j-1]]
-		case "goexit":
+		case "goexit", "c2exit":
 			runtime.Goexit()
 		}
 		return nil
@@ -361,7 +488,7 @@ func (x *exec) body(j int) func(context.Context) error {
 
 // execRun executes one run on the real scheduler.
 func execRun(rs RunSpec, log *vt.APILog, col *vt.Collector, nostamp bool, deadline time.Duration) (hang bool) {
-	x := &exec{rs: rs, log: log, errs: map[int]error{}, nostamp: nostamp, col: col}
+	x := &exec{rs: rs, log: log, errs: map[int]error{}, nostamp: nostamp, col: col, barFull: make(chan struct{})}
 	if col != nil {
 		col.ResetSeen()
 	}
@@ -374,7 +501,11 @@ func execRun(rs RunSpec, log *vt.APILog, col *vt.Collector, nostamp bool, deadli
 		col.PerturbP, col.PerturbMax = rs.PerturbP, rs.PerturbMax
 	}
 	rng := rand.New(rand.NewSource(rs.Seed))
-	log.Add(vt.APIEvent{Ev: "reset", Run: rs.Run, NJ: rs.J, N: effN(rs.N), Coe: rs.Coe, Deps: rs.Deps, Cls: rs.Cls})
+	jc := make([]int, rs.J)
+	for j := 1; j <= rs.J; j++ {
+		jc[j-1] = rs.jctx(j)
+	}
+	log.Add(vt.APIEvent{Ev: "reset", Run: rs.Run, NJ: rs.J, N: effN(rs.N), Coe: rs.Coe, Deps: rs.Deps, Cls: rs.Cls, JC: jc})
 
 	base := context.WithValue(context.Background(), ctxKey{}, "marker")
 	ctx, cancel := context.WithCancel(base)
@@ -400,6 +531,8 @@ func execRun(rs RunSpec, log *vt.APILog, col *vt.Collector, nostamp bool, deadli
 	}
 	x.cancel = cancel
 	defer cancel()
+	x.ctx2, x.cancel2 = context.WithCancel(context.WithValue(context.Background(), ctxKey{}, "marker2"))
+	defer x.cancel2()
 	defer atomic.StoreInt32(&x.over, 1)
 
 	cfg := scheduler.Config{Concurrency: rs.N, ContinueOnError: rs.Coe}
@@ -418,7 +551,14 @@ func execRun(rs RunSpec, log *vt.APILog, col *vt.Collector, nostamp bool, deadli
 		if rs.CancelMode == "before" {
 			x.doCancel()
 		}
+		if rs.Cancel2Mode == "before" {
+			x.doCancel2()
+		}
 		s := cfg.New()
+		if rs.Cancel2Mode == "timer" {
+			d := time.Duration(rs.Cancel2Arg) * time.Microsecond
+			go func() { time.Sleep(d); x.doCancel2() }()
+		}
 		if rs.CancelMode == "timer" {
 			d := time.Duration(rs.CancelArg) * time.Microsecond
 			go func() { time.Sleep(d); x.doCancel() }()
@@ -426,8 +566,19 @@ func execRun(rs RunSpec, log *vt.APILog, col *vt.Collector, nostamp bool, deadli
 		handles := make([]*scheduler.ScheduledJob, rs.J+1)
 		for j := 1; j <= rs.J; j++ {
 			sleepUs(rs.EnqUs[j-1])
+			if rs.Barrier > 0 && j == rs.J-rs.Barrier+1 {
+				// the capacity probe starts once everything before it has finished and the
+				// scheduler has had time to replace the workers that died
+				for i := 0; i < 2000 && atomic.LoadInt32(&x.inBody) > 0; i++ {
+					time.Sleep(100 * time.Microsecond)
+				}
+				time.Sleep(2 * time.Millisecond)
+			}
 			if rs.CancelMode == "atenq" && rs.CancelArg == j {
 				x.doCancel()
+			}
+			if rs.Cancel2Mode == "atenq" && rs.Cancel2Arg == j {
+				x.doCancel2()
 			}
 			var deps []*scheduler.ScheduledJob
 			for _, d := range rs.Deps[j-1] {
@@ -436,7 +587,7 @@ func execRun(rs RunSpec, log *vt.APILog, col *vt.Collector, nostamp bool, deadli
 			if !nostamp {
 				log.Add(vt.APIEvent{Ev: "submit", Run: rs.Run, Job: j})
 			}
-			handles[j] = s.Enqueue(ctx, scheduler.Job{Run: x.body(j), Dependencies: deps})
+			handles[j] = s.Enqueue(x.ctxOf(ctx, j), scheduler.Job{Run: x.body(j), Dependencies: deps})
 		}
 		sleepUs(rs.WaitUs)
 		if !nostamp {
@@ -445,6 +596,9 @@ func execRun(rs RunSpec, log *vt.APILog, col *vt.Collector, nostamp bool, deadli
 		err := s.Wait(ctx)
 		kind, toks := x.classify(err)
 		log.Add(vt.APIEvent{Ev: "waitret", Run: rs.Run, Kind: kind, Toks: toks})
+		if rs.Barrier > 0 && !nostamp {
+			log.Add(vt.APIEvent{Ev: "capacity", Run: rs.Run, P: int(atomic.LoadInt32(&x.maxBar)), C: rs.Barrier})
+		}
 	}()
 
 	select {
@@ -567,6 +721,11 @@ func main() {
 		for k := 1; k <= *runs; k++ {
 			specs = append(specs, genFanin(rng, k, *maxJ, *maxN))
 		}
+	case "capacity":
+		rng := rand.New(rand.NewSource(*seed))
+		for k := 1; k <= *runs; k++ {
+			specs = append(specs, genCapacity(rng, k))
+		}
 	case "pileup":
 		rng := rand.New(rand.NewSource(*seed))
 		for k := 1; k <= *runs; k++ {
@@ -589,6 +748,11 @@ func main() {
 		must(vt.WriteNDJSON(apiF, log.Take()))
 		if col != nil {
 			ts := col.TakeAll(rs.Run)
+			for i := range ts {
+				for j := 1; j <= ts[i].NJ; j++ {
+					ts[i].JCtx = append(ts[i].JCtx, rs.jctx(j))
+				}
+			}
 			if !bad {
 				traces = append(traces, ts...)
 			}
